@@ -1842,6 +1842,13 @@ class Interp:
                 r = self.order(a, op, b)
                 if r is not None:
                     return r
+            if op in ('<', '<=', '>', '>=', '==', '!=') and not diff.f and diff.n.is_monomial() and diff.atoms() and \
+                    all(a_ in SURELY_POSITIVE or a_.startswith('U<') or a_ in self.positive_syms or
+                        a_ in self.D.positive for a_ in diff.atoms()):
+                # a product of quantities that are positive (temperatures, constants, what the rule declared so)
+                (coef_,) = diff.n.t.values()
+                pos_ = coef_ > 0
+                return {'<': not pos_, '<=': not pos_, '>': pos_, '>=': pos_, '==': False, '!=': True}[op]
         if op in ('<', '<=', '>', '>=') and type(a) is str and type(b) is str and \
                 a not in self.sym_strings and b not in self.sym_strings:
             return {'<': a < b, '<=': a <= b, '>': a > b, '>=': a >= b}[op]      # by code point
@@ -3540,8 +3547,34 @@ class Frame:
         if isinstance(v_, Obj) and v_.ci is not None and (
                 self.I.repo.find_method(v_.ci, '__get__', missing_ok=True) or
                 self.I.repo.find_method(v_.ci, '__set__', missing_ok=True)):
-            raise Unsupported('attribute %s is a descriptor object (the descriptor protocol is not modelled)' % attr,
-                              node, self.module.relpath)
+            # a descriptor object of the package (one per class attribute, shared by all instances): reads and stores
+            # of the attribute go through its __get__ / __set__
+            I = self.I
+            if not getattr(v_, 'name_set', False):
+                v_.name_set = True
+                if I.repo.find_method(v_.ci, '__set_name__', missing_ok=True):
+                    r_ = I.call_method(v_, '__set_name__', [k, attr], {})       # done when the class is created
+                    if isinstance(r_, Raised):
+                        raise _RaisedExc(r_)
+            has_get = bool(I.repo.find_method(v_.ci, '__get__', missing_ok=True))
+            has_set = bool(I.repo.find_method(v_.ci, '__set__', missing_ok=True))
+            if not has_set:
+                return None         # a non-data descriptor: the instance's own attribute wins (see obj_attr)
+
+            def call_(mname, extra):
+                def f(I_, fr_, a, k_, n_):
+                    r2 = I.call_method(v_, mname, extra + list(a), {})
+                    if isinstance(r2, Raised):
+                        raise _RaisedExc(r2)
+                    return r2
+                return _stdlib.CallableV(f, 'descriptor.' + mname)
+            if has_get:
+                getter = call_('__get__', [obj, obj.ci])
+            else:
+                # a data descriptor without __get__: reads find the instance's own attribute, else the descriptor
+                getter = _stdlib.CallableV(lambda I_, fr_, a, k_, n_: obj.attrs[attr] if attr in obj.attrs else v_,
+                                           'descriptor')
+            return getter, call_('__set__', [obj])
         return None
 
     def obj_attr(self, obj, attr, node=None):
@@ -3587,6 +3620,12 @@ class Frame:
                     if key not in I.module_globals:
                         I.module_globals[key] = Frame(I, k.module, {}, k, None).ev(k.class_attrs[attr])
                     cv_ = I.module_globals[key]
+                    if isinstance(cv_, Obj) and cv_.ci is not None and \
+                            I.repo.find_method(cv_.ci, '__get__', missing_ok=True):
+                        r2_ = I.call_method(cv_, '__get__', [obj, obj.ci], {})       # a non-data descriptor
+                        if isinstance(r2_, Raised):
+                            raise _RaisedExc(r2_)
+                        return r2_
                     if isinstance(cv_, FuncRef) and cv_.self_obj is None:
                         # a function found in the class (a lambda, a closure made by a factory) is bound to the
                         # instance it is read through, like a def
@@ -5794,6 +5833,39 @@ def _dataclass_replace(I, fr, args, kwargs, n):
     return fr.apply(o.ci, [], kw, n)
 
 
+def _np_interp(I, fr, args, kwargs, n):
+    """np.interp(x, xp, fp): the piecewise-linear interpolant through (xp[i], fp[i]) for ascending xp, constant beyond
+    the ends (fp[0] / fp[-1] unless left= / right= say otherwise); the piece is found through the ordering oracle"""
+    x = _arg(args, kwargs, 0, 'x')
+    xp = _arg(args, kwargs, 1, 'xp')
+    fp = _arg(args, kwargs, 2, 'fp')
+    if kwargs.get('period') is not None:
+        raise Unsupported('np.interp(period=)', n)
+    if not (isinstance(xp, ListV) and isinstance(fp, ListV) and xp.items and len(xp.items) == len(fp.items) and
+            all(isinstance(v_, Rat) for v_ in xp.items + fp.items)):
+        raise Unsupported('np.interp over %r / %r' % (xp, fp), n)
+    left = kwargs.get('left') if kwargs.get('left') is not None else fp.items[0]
+    right = kwargs.get('right') if kwargs.get('right') is not None else fp.items[-1]
+
+    def one(xv):
+        if not isinstance(xv, Rat):
+            raise Unsupported('np.interp at %r' % (xv,), n)
+        if I.truth(I.compare('<', xv, xp.items[0], n), n):
+            return left
+        if I.truth(I.compare('>', xv, xp.items[-1], n), n):
+            return right
+        for k_ in range(len(xp.items) - 1):
+            if I.truth(I.compare('<=', xv, xp.items[k_ + 1], n), n):
+                a_, b_ = xp.items[k_], xp.items[k_ + 1]
+                return fp.items[k_] + (fp.items[k_ + 1] - fp.items[k_]) * (xv - a_) / (b_ - a_)
+        return fp.items[-1]
+    if isinstance(x, ListV):
+        r = ListV([one(v_) for v_ in x.items])
+        r.is_array = True
+        return r
+    return one(x)
+
+
 def _np_repeat(I, fr, args, kwargs, n):
     """np.repeat(a, repeats): every entry repeated (a scalar count, or one count per entry)"""
     a = _arg(args, kwargs, 0, 'a')
@@ -7087,7 +7159,7 @@ NATIVE = {
     'collections.namedtuple': _namedtuple,
     'pathlib.Path': _pathlib_path, 'os.fspath': lambda I, fr, args, kwargs, n: (
         args[0].attrs['__fspath__'] if isinstance(args[0], Obj) and '__fspath__' in args[0].attrs else args[0]),
-    'inspect.getfullargspec': _getfullargspec, 'dataclasses.replace': _dataclass_replace, 'numpy.repeat': _np_repeat,
+    'inspect.getfullargspec': _getfullargspec, 'dataclasses.replace': _dataclass_replace, 'numpy.repeat': _np_repeat, 'numpy.interp': _np_interp,
     'itertools.repeat': _itertools_repeat,
     'numpy.argmin': _arg_extremum('min'),
     'numpy.nanargmin': _arg_extremum('min'),
